@@ -126,6 +126,22 @@ func runC17(c *Ctx) {
 			names = append(names, "ab."+strings.Repeat("z", n-3))
 		}
 	}
+	// structured names: labels joined by one or more dots (an empty label between
+	// two dots is a label shorter than three characters)
+	labels := []string{"aaa", "a-z", "0a9", "abc", "a--b", "zz9", "ab", "a", "-ab", "ab-", "aB0", "a_b", "abcdefghij", "100", "255", "010"}
+	seps := []string{".", "..", "..."}
+	for _, l1 := range labels {
+		for _, s1 := range seps {
+			for _, l2 := range labels {
+				names = append(names, l1+s1+l2, "."+l1+s1+l2, l1+s1+l2+".")
+				for _, s2 := range seps[:2] {
+					for _, l3 := range labels[:6] {
+						names = append(names, l1+s1+l2+s2+l3)
+					}
+				}
+			}
+		}
+	}
 	// IP-looking names
 	ips := []string{"100.100.100.100", "192.168.100.200", "255.255.255.255", "127.100.100.101", "111.222.111.222",
 		"256.100.100.100", "999.999.999.999", "010.010.010.010", "100.100.100", "100.100.100.100.100", "100.100.100.abc",
